@@ -157,9 +157,22 @@ def _case(draw, tier):
         second = fa if draw(st.booleans()) else ["or", "nary", [fa, d2] if draw(st.booleans()) else [d2, fa]]
         cond = ["and", "nary", [first, second] if draw(st.booleans()) else [second, first]]
         split, combine, twice = False, "twice", True
+    elem_free = False
+    if (nF == 2 and not per_binding and not twice and not story and klass == "both" and len(fa) == 3 and chance(draw, 1, 2)
+            and all(len(set(recs[i]["kids"])) == len(recs[i]["kids"]) for i in doms[0])):
+        # the second free "variable" is an element flattened out of the first one's collection: e = flatten(x.kids);
+        # set_of([x, e], for_all(u, c(e, u))) - the bindings are the (x, element) pairs
+        c = leaf(draw, ctx, [1, u])
+        fa = ["forall", u, c]
+        comb_ = draw(st.sampled_from(["alone", "alone", "d_first", "d_last"]))
+        d = leaf(draw, ctx, draw(st.sampled_from([[1], [0], [0, 1]])))
+        cond = fa if comb_ == "alone" else ["and", "nary", [d, fa] if comb_ == "d_first" else [fa, d]]
+        split, combine, elem_free = False, "elem_" + comb_, True
     order = list(draw(st.permutations(frees)))
     if story:
         order = [0]
+    elif elem_free:
+        pass
     elif nF == 2 and chance(draw, 1, 3):
         order = order[:1]        # projection onto one of the two free variables (compared as a set)
     sel = [["var", v] for v in order]
@@ -168,6 +181,9 @@ def _case(draw, tier):
             "split_top": split, "dom_kind": "list", "klass": klass, "combine": combine, "u": u}
     if twice:
         case["one_forall_object_twice"] = True
+    if elem_free:
+        case["flat_var"] = [1, 0]
+        return case
     if len(fa) > 3 and fa[3][0] == "attr" and chance(draw, 1, 3):
         case["universal_mentioned_later"] = True
     if bare_truth and len(fa) == 3:
@@ -222,6 +238,18 @@ def check(case) -> Outcome:
                 n_sat += 1
                 expected.append(tuple(A.eval_term(t, env) for t in case["sel"]))
         U = [x_ for o_ in doms_[j] for x_ in o_.kids]
+    elif case.get("flat_var"):
+        doms_ = var_domains(case, objs)
+        domd_ = {i: d_ for i, d_ in enumerate(doms_)}
+        expected, n_sat, n_all = [], 0, 0
+        for x_ in doms_[0]:
+            for k_ in x_.kids:
+                env = {0: x_, 1: k_}
+                n_all += 1
+                if A.eval_cond(case["cond"], env, domd_):
+                    n_sat += 1
+                    expected.append(tuple(A.eval_term(t, env) for t in case["sel"]))
+        U = doms_[u]
     else:
         expected, n_sat, n_all = reference_rows(ref_case, objs)
         U = var_domains(ref_case, objs)[u]
@@ -248,6 +276,9 @@ def check(case) -> Outcome:
         classes.append("comparison_objects_used_in_an_earlier_query")
     if case.get("universal_mentioned_later"):
         classes.append("universal_expression_object_mentioned_in_a_later_query")
+    if case.get("flat_var"):
+        feats.append("free_variable_is_a_flattened_element")
+        classes.append("free_variable_is_a_flattened_element")
     if case.get("one_forall_object_twice"):
         feats.append("one_forall_object_at_two_places")
         classes.append("one_forall_object_at_two_places")
